@@ -198,8 +198,8 @@ theorem commonWindow_isSome (p s : List (Line Pos)) (mi : Int) (start stop : Opt
   obtain ⟨b, hb⟩ := minList_isSome (s.map (·.time)) (by simpa using hs)
   obtain ⟨c, hc⟩ := maxList_isSome (p.map (·.time)) (by simpa using hp)
   obtain ⟨e, he⟩ := maxList_isSome (s.map (·.time)) (by simpa using hs)
-  refine ⟨_, _, ?_⟩
   simp only [commonWindow, ha, hb, hc, he]
+  exact ⟨_, _, rfl⟩
 
 /-! ### NaN filter with its index map -/
 
@@ -266,7 +266,8 @@ theorem nn_row (pts : List (Pt Pos)) (a : Nat) (x : NPt Pos) (hx : (dropNan pts)
 /-- every non-NaN point of the flattened dataset is a row of the NaN-free arrays -/
 theorem nn_row_of_mem (pts : List (Pt Pos)) (p : Pt Pos) (hp : p ∈ pts) (px : Pos)
     (hpos : p.pos = some px) :
-    ∃ a i, (dropNan pts)[a]? = some (⟨px, p.time⟩ : NPt Pos) ∧ (notNanIdx pts)[a]? = some i ∧ pts[i]? = some p := by
+    ∃ a i : Nat, (dropNan pts)[a]? = some (⟨px, p.time⟩ : NPt Pos) ∧ (notNanIdx pts)[a]? = some i ∧
+      pts[i]? = some p := by
   obtain ⟨i, hi⟩ := List.mem_iff_getElem?.mp hp
   have hm : (i, (⟨px, p.time⟩ : NPt Pos)) ∈ nnJoint pts :=
     (mem_nnJoint pts i _).mpr ⟨p, hi, hpos, rfl⟩
